@@ -23,9 +23,19 @@ class Refused(Exception):
 # ---------------------------------------------------------------- session on the real file
 
 class Session:
-    def __init__(self, path=None, build=None, auto_ts=True):
+    def __init__(self, path=None, build=None, auto_ts=True, twin=False):
         env.install_seams()
         env.reset_execution()
+        # twin: a second file built from the same seed (same names and HDF5 paths, other ids) that stays
+        # open in this process; it must read unchanged at the end (state kept outside the File objects)
+        self.twin = None
+        if twin:
+            from . import walker
+            tp = env.fresh_path("twin")
+            tf = nix.File.open(tp, nix.FileMode.Overwrite, auto_update_timestamps=auto_ts)
+            if build is not None:
+                build(tf)
+            self.twin = (tp, tf, walker.walk(tf, core=True))
         self.path = path or env.fresh_path("s")
         self.auto_ts = auto_ts
         self.f = nix.File.open(self.path, nix.FileMode.Overwrite, auto_update_timestamps=auto_ts)
@@ -41,8 +51,22 @@ class Session:
                                auto_update_timestamps=self.auto_ts)
         self.mode = mode
 
+    def twin_changed(self):
+        """None if there is no twin or it still reads as built; else a list of differing keys"""
+        if self.twin is None:
+            return None
+        from . import walker
+        now = walker.walk(self.twin[1], core=True)
+        if now == self.twin[2]:
+            return None
+        return walker.diff(self.twin[2], now, limit=6)
+
     def close(self, remove=True):
         env.safe_close(self.f)
+        if self.twin is not None:
+            env.safe_close(self.twin[1])
+            env.rm(self.twin[0])
+            self.twin = None
         if remove:
             env.rm(self.path)
 
